@@ -38,6 +38,8 @@ def gen_cases(out, explore):
             tr = S.gen_trace(rnd, job=1 + t, name=1 + rnd.randrange(3), first_id=nid, n=n,
                              dangling=(kind in ("dangling", "dangling_names")), names_inconsistent=(kind in ("names", "dangling_names")))
             nid += n
+            if rnd.random() < 0.3 and tr and tr[0]["par"] is None:
+                tr[0]["par"] = 0        # the root's missing parent written as "" (the usual OTLP JSON spelling) instead of null
             for e in tr:
                 if kind in ("in", "dangling", "names", "dangling_names"):
                     e["st"] = rnd.randrange(t0, t0 + extent)
@@ -184,7 +186,7 @@ def cases_v(items) -> str:
     for case, res in items:
         nodes0, assoc0, _ = res["before"]
         exp = "None" if res["status"] != "ok" else f"(Some ({S.coq_nodes(res['nodes'])}, {S.coq_pairs(res['assoc'])}))"
-        rows.append(f"(({coq_z(case['buf'])}, {S.coq_nodes(case['events'])}, {S.coq_store(nodes0, assoc0)}), {exp})")
+        rows.append(f"(({coq_z(case['buf'])}, {S.coq_nodes([dict(e, par=e['par'] or None) for e in case['events']])}, {S.coq_store(nodes0, assoc0)}), {exp})")
     body = ";\n ".join(rows)
     return f"""From Coq Require Import ZArith List Bool. Import ListNotations.
 From V Require Import Store.Rel Store.Clean.
@@ -241,7 +243,7 @@ def run(out: common.Outcome, explore: int = 0) -> None:
     keys = {repr(c) for c, r in items if r["status"] == "ok" and 0 < len(r["nodes"]) < len(r["before"][0])}
     out.coverage.update({
         "evaluations": len(cases), "distinct_nontrivial": len(keys),
-        "rule": "random stores mixing complete traces, dangling-parent traces, inconsistent workflow names, traces before / after / "
+        "rule": "random stores mixing complete traces (30% with the root's parent written as the empty string), dangling-parent traces, inconsistent workflow names, traces before / after / "
                 "straddling / touching the buffered window bounds (stamps placed on and next to lo and hi), time_buffer in {0,1,5} "
                 "minutes, nanosecond stamps from 0 and from 1.7e18; non-trivial = cleaning removed some but not all spans",
         "samples": [{"case": cases[0]}],
